@@ -34,15 +34,25 @@ Oracle (independent of the Lean model, on a Python reference of the DAG):
     left-hand history; with append-only no accepted tip lacks the old tip in
     its left-hand history.
 
-Mutants this was built against (scratch worktrees, see report): swapped
-'b_descends_from_a'/'a_descends_from_b' results in _revision_relations;
-`heads == {revision_a, revision_b}` -> returns 'a_descends_from_b' (diverged
-treated as fast-forward); `"history" in overwrite` -> `bool(overwrite)`;
-dropped `_check_history_violation`; _check_history_violation walking the whole
-ancestry (iter_ancestry) instead of the left-hand one; is_null early return
-removed; stop_revno taken from the source even when stop_revision is given;
-known revnos swapped in find_distance_to_null; _basic_push skipping the
-master; git _update_tip with the is_ancestor arguments swapped.
+Mutation self-test (scratch worktree, quick tier, seed 0; all caught):
+ M1  _revision_relations: 'b_descends_from_a' / 'a_descends_from_b' swapped     -> oracle (+T1, T2)
+ M2  _revision_relations: diverged heads answered 'a_descends_from_b'          -> oracle "tip moved to a
+     revision that does not contain it" (+T1, T2)
+ M3  _pull: overwrite=("history" in overwrite) -> bool(overwrite) ({"tags"} now
+     overwrites history; needs overwrite={"tags"} and a diverged pair)          -> oracle
+ M4  set_last_revision_info: _check_history_violation call dropped              -> oracle (append-only)
+ M5  _check_history_violation walks iter_ancestry instead of the left-hand side
+     (needs old tip merged as a NON-left-hand parent)                           -> oracle
+ M6  _check_history_violation: is_null early return removed (differs only when
+     the new tip has a left-hand ghost: the walk yields null: at its end)       -> T2 mismatch
+ M7  _update_revisions: stop_revno = other_revno also when stop_revision given -> oracle (revno)
+ M8  push: master_inter._basic_push skipped for a bound target                  -> oracle (master)
+ M9  git _update_tip: is_ancestor(revid, last_rev) arguments swapped            -> oracle (git)
+ M10 known revnos swapped between the two find_distance_to_null seeds           -> oracle (revno)
+ M11 _basic_push short-circuit compares stop_revision with the SOURCE tip       -> oracle
+ M12 git generate_revision_history without the divergence check                 -> oracle (git)
+ H1  harmless: elif chain of _check_if_descendant_or_diverged reordered,
+     last_revision() -> last_revision_info()[1]                                 -> clean, T1 still proved
 """
 import ast
 import itertools
@@ -516,27 +526,36 @@ def oracle(dag, c, obs, revno, sink):
         sink("unexpected exception %s" % err, None)
     if noop or (eff is not None and eff >= GH0):
         return
-    # classification for the target itself (only when nothing else can legitimately interfere)
+    lh_eff = ref_lh(dag, eff)
     if c["master"] is None:
-        lh_eff = ref_lh(dag, eff)
-        # nothing may legitimately refuse: the requested revision has a revno, and an append-only
-        # target has no tip yet or finds its tip in the requested revision's left-hand history
-        clean = lh_eff is not None and (not c["ao"] or old_t is None or old_t in lh_eff)
-        if c["ao"] and lh_eff is not None and old_t is not None and old_t not in lh_eff and new_t != old_t:
-            sink("append-only target accepted %s whose left-hand history lacks %s" % (tip_s(eff), tip_s(old_t)), None)
-        if hist:
+        _classify(dag, "target", old_t, new_t, eff, err, hist, lh_eff, c["ao"], sink)
+    elif err == "ok" and obs["master"] is not None:
+        # a bound operation that succeeded has updated the master and then the target: each of
+        # them must look like a successful stand-alone operation
+        _classify(dag, "target", old_t, new_t, eff, "ok", hist, lh_eff, c["ao"], sink)
+        _classify(dag, "master", c["master"][0], obs["master"][0], eff, "ok", hist, lh_eff, c["master"][1], sink)
+
+
+def _classify(dag, who, old_t, new_t, eff, err, hist, lh_eff, ao, sink):
+    """the statement's case analysis for one branch"""
+    # nothing may legitimately refuse: the requested revision has a revno, and an append-only
+    # branch has no tip yet or finds its tip in the requested revision's left-hand history
+    clean = lh_eff is not None and (not ao or old_t is None or old_t in lh_eff)
+    if ao and lh_eff is not None and old_t is not None and old_t not in lh_eff and new_t != old_t:
+        sink("append-only %s accepted %s whose left-hand history lacks %s" % (who, tip_s(eff), tip_s(old_t)), None)
+    if hist:
+        if clean and not (err == "ok" and new_t == eff):
+            sink("overwrite: expected %s tip %s, got %s %s" % (who, tip_s(eff), err, tip_s(new_t)), None)
+    else:
+        if ref_is_anc(dag, eff, old_t):
+            if err != "ok" or new_t != old_t:
+                sink("%s contains %s but outcome is %s tip %s" % (who, tip_s(eff), err, tip_s(new_t)), None)
+        elif ref_is_anc(dag, old_t, eff):
             if clean and not (err == "ok" and new_t == eff):
-                sink("overwrite: expected tip %s, got %s %s" % (tip_s(eff), err, tip_s(new_t)), None)
+                sink("%s descends from %s tip %s but outcome is %s tip %s" % (tip_s(eff), who, tip_s(old_t), err, tip_s(new_t)), None)
         else:
-            if ref_is_anc(dag, eff, old_t):
-                if err != "ok" or new_t != old_t:
-                    sink("target contains %s but outcome is %s tip %s" % (tip_s(eff), err, tip_s(new_t)), None)
-            elif ref_is_anc(dag, old_t, eff):
-                if clean and not (err == "ok" and new_t == eff):
-                    sink("%s descends from tip %s but outcome is %s tip %s" % (tip_s(eff), tip_s(old_t), err, tip_s(new_t)), None)
-            else:
-                if err != "E:Diverged":
-                    sink("%s and %s diverged but outcome is %s tip %s" % (tip_s(eff), tip_s(old_t), err, tip_s(new_t)), None)
+            if err != "E:Diverged":
+                sink("%s and %s tip %s diverged but outcome is %s tip %s" % (tip_s(eff), who, tip_s(old_t), err, tip_s(new_t)), None)
 
 
 def _lefthand_ghost_tip(dag, c):
@@ -691,7 +710,7 @@ def run_relations(ctx):
 
 def run(ctx, ndags=None, ngit=None, maxn=None):
     run_relations(ctx)
-    ndags = ndags or ctx.pick(24, 200)
+    ndags = ndags or ctx.pick(20, 200)
     ngit = ngit if ngit is not None else ctx.pick(4, 24)
     maxn = maxn or ctx.pick(7, 10)
     jobs = []
